@@ -1084,6 +1084,22 @@ class Interp:
             v, s = o.value, o.st
             some = isinstance(v, tuple) and v and v[0] in ("Some", "Ok")
             none = v == NONE or (isinstance(v, tuple) and v and v[0] == "Err")
+            if isinstance(v, tuple) and v[:1] == ("A",) and not e["args"] and m in ("len", "is_empty", "first", "last", "enumerate", "rev"):
+                # a literal array / slice of known elements
+                els = v[1]
+                if m == "len":
+                    res.append(Out("val", len(els), s))
+                elif m == "is_empty":
+                    res.append(Out("val", len(els) == 0, s))
+                elif m == "first":
+                    res.append(Out("val", ("Some", els[0]) if els else NONE, s))
+                elif m == "last":
+                    res.append(Out("val", ("Some", els[-1]) if els else NONE, s))
+                elif m == "enumerate":
+                    res.append(Out("val", ("A", tuple(("T", (i_, el_)) for i_, el_ in enumerate(els))), s))
+                else:
+                    res.append(Out("val", ("A", tuple(reversed(els))), s))
+                continue
             if m in ("as_ref", "as_mut", "clone", "cloned", "copied", "as_deref", "as_deref_mut", "borrow", "to_owned", "iter", "into_iter", "by_ref", "as_str", "into", "to_string", "as_bytes") and not e["args"]:
                 res.append(Out("val", v, s))
             elif m in ("is_some", "is_ok") and not e["args"]:
